@@ -117,9 +117,35 @@ def jobs():
     return J
 
 
+# ---- declaration order of the types involved and `self`: the same violations with the blob / enum declared AFTER the type that has a field of it
+FWD_BLOB = {"used_first": "Aa :: blob {\n    b: Bb,\n}\nBb :: blob {\n    x: int,\n}\n", "declared_first": "Bb :: blob {\n    x: int,\n}\nAa :: blob {\n    b: Bb,\n}\n"}
+FWD_ENUM = {"used_first": "Aa :: blob {\n    e: Ee,\n}\nEe :: enum\n    X,\n    Y,\nend\n", "declared_first": "Ee :: enum\n    X,\n    Y,\nend\nAa :: blob {\n    e: Ee,\n}\n"}
+def _fwd_jobs():
+    J = []
+    for order, decl in FWD_BLOB.items():
+        J.append({"name": "field_of_field_" + order, "core": "field-access-through-field(%s)" % order, "module": "checks.C05", "spec": "fwd_access",
+                  "text": decl + "ff :: fn a: Aa -> int do\n    ret __ealt1(a.b.x, a.b.nope, undefined_zz)\nend\nstart :: fn do\n    pr(ff(Aa { b: Bb { x: 1 } }))\nend\n"})
+        J.append({"name": "field_value_of_blob_type_" + order, "core": "field-value-of-blob-type(%s)" % order, "module": "checks.C05", "spec": "fwd_access",
+                  "text": decl + "start :: fn do\n    v := Aa { b: __ealt1(Bb { x: 1 }, 1, undefined_zz) }\n    pr(v.b)\nend\n"})
+    for order, decl in FWD_BLOB.items():
+        J.append({"name": "field_of_field_in_uncalled_function_" + order, "core": "field-access-through-field-in-uncalled-function(%s)" % order, "module": "checks.C05", "spec": "fwd_access",
+                  "text": decl + "ff :: fn a: Aa -> int do\n    ret __ealt1(a.b.x, a.b.nope, undefined_zz)\nend\nstart :: fn do\n    v :: Aa { b: Bb { x: 1 } }\n    pr(v.b.x)\nend\n"})
+    for order, decl in FWD_ENUM.items():
+        J.append({"name": "case_on_field_in_uncalled_function_" + order, "core": "case-on-enum-field-in-uncalled-function(%s)" % order, "module": "checks.C05", "spec": "fwd_case",
+                  "text": decl + "ff :: fn a: Aa -> int do\n    __alt1(fn do\n        case a.e do\n            X -> ret 1 end\n            Y -> ret 2 end\n        end\n    end, fn do\n        case a.e do\n            Nope -> ret 1 end\n        end\n    end, fn do\n        case a.e do\n            X -> ret 1 end\n        end\n    end, fn do\n        pr(undefined_zz)\n    end)\n    ret 0\nend\nstart :: fn do\n    v :: Aa { e: Ee.X }\n    pr(v.e)\nend\n"})
+    for order, decl in FWD_ENUM.items():
+        J.append({"name": "case_on_field_" + order, "core": "case-on-enum-field(%s)" % order, "module": "checks.C05", "spec": "fwd_case",
+                  "text": decl + "ff :: fn a: Aa -> int do\n    __alt1(fn do\n        case a.e do\n            X -> ret 1 end\n            Y -> ret 2 end\n        end\n    end, fn do\n        case a.e do\n            Nope -> ret 1 end\n        end\n    end, fn do\n        case a.e do\n            X -> ret 1 end\n        end\n    end)\n    ret 0\nend\nstart :: fn do\n    pr(ff(Aa { e: Ee.X }))\nend\n"})
+    J.append({"name": "self_field", "core": "field-access-through-self", "module": "checks.C05", "spec": "fwd_access",
+              "text": "Aa :: blob {\n    x: int,\n    f: fn -> int,\n}\nstart :: fn do\n    a :: Aa { x: 1, f: fn -> int do ret __ealt1(self.x, self.nope, undefined_zz) end }\n    pr(a.f())\nend\n"})
+    return J
+SPECS["fwd_access"] = lambda S, I: I("ealt1", 1); ACCEPT_SPECS["fwd_access"] = lambda S, I: I("ealt1", 0)
+SPECS["fwd_case"] = lambda S, I: z3.Or(I("alt1", 1), I("alt1", 2)); ACCEPT_SPECS["fwd_case"] = lambda S, I: I("alt1", 0)
+
+
 def run(tier):
     t0 = time.time()
-    J = jobs()
+    J = jobs() + _fwd_jobs()
     rc = ktcrun.run_check("C05", tier, J, t0, ktcrun.KTC_FUNCTIONS,
                           {"blob_field_subsets": len(BLOB_INST), "field_accesses": len(FIELD), "enum_constructions": len(ENUM), "case_shapes": len(CASE), "tuple_shapes": len(TUPLE), "break_continue_placements": len(LOOPS), "start_types": len(START)},
                           ktcrun.KTC_ASSUMPTIONS + ["blobs with two fields, enums with two variants (plain and generic), tuples of length <= 4",
